@@ -30,6 +30,12 @@ type SrvConf struct {
 	CloseIn     string   `json:"close_in,omitempty"`      // "", auth, reg: Server.Close is called while the server is inside that callback (full mode)
 	AutoPing    bool     `json:"auto_ping,omitempty"`     // full mode: the server is built with AutoReplyPings()
 	AuthDelayMs int      `json:"auth_delay_ms,omitempty"` // the authentication callback takes this long (concurrent handshakes overlap inside it)
+	// WarmUp (full mode, tcp/ws): the server has a second, in-process listener, over which a
+	// handshake is begun and abandoned before the scripted clients connect
+	WarmUp bool `json:"warm_up,omitempty"`
+	// OtherBuilder (full mode): after this server is built, an unrelated server is built (never
+	// started) with its own, different option lists
+	OtherBuilder bool `json:"other_builder,omitempty"`
 	// EarlySender (full mode): the registration callback hands the channel to a task that sends a
 	// message on it as soon as the channel calls itself established
 	EarlySender bool `json:"early_sender,omitempty"`
@@ -280,6 +286,11 @@ func StartSUT(w *World, h *History, conf SrvConf, port int) (*SUT, error) {
 		default:
 			b.ListenInProcess(s.InProc)
 		}
+		inProc2 := lime.InProcessAddr("")
+		if conf.WarmUp && conf.Transport != "inproc" {
+			inProc2 = lime.InProcessAddr(fmt.Sprintf("warmup-%d-%d", port, ProcUniq()))
+			b.ListenInProcess(inProc2)
+		}
 		hasTransport := false
 		for _, sc := range conf.Schemes {
 			switch sc {
@@ -346,6 +357,11 @@ func StartSUT(w *World, h *History, conf SrvConf, port int) (*SUT, error) {
 			return hk("response")(ctx, c, snd)
 		})
 		s.server = b.Build()
+		if conf.OtherBuilder {
+			// a second server of the same process, configured differently, must not touch this one
+			_ = lime.NewServerBuilder().Name("other").CompressionOptions(lime.SessionCompressionNone).EncryptionOptions(lime.SessionEncryptionNone, lime.SessionEncryptionTLS).
+				ListenInProcess(lime.InProcessAddr(fmt.Sprintf("other-%d-%d", port, ProcUniq()))).EnableGuestAuthentication().Build()
+		}
 		// the builder starts from the default scheme list (transport); make the offer exactly conf.Schemes
 		if !hasTransport {
 			// nothing public removes a scheme: full mode always offers "transport" too
@@ -372,6 +388,22 @@ func StartSUT(w *World, h *History, conf SrvConf, port int) (*SUT, error) {
 		})
 		if !ok {
 			return nil, errors.New("server did not start listening")
+		}
+		if inProc2 != "" {
+			// a first connection over the transport that supports less than the configuration offers:
+			// whatever it does to the server's option lists, the scripted clients see afterwards
+			keep := s.h
+			s.h = &History{}
+			if t, err := lime.DialInProcess(inProc2, 1); err == nil {
+				wctx, wcancel := context.WithTimeout(context.Background(), 5*time.Second)
+				_ = sendMapInProc(wctx, t, map[string]interface{}{"state": "new"})
+				_, _ = t.Receive(wctx)
+				wcancel()
+				t.Close()
+				w.Count("warm-up-over-second-listener")
+			}
+			time.Sleep(200 * time.Millisecond)
+			s.h = keep
 		}
 		return s, nil
 	}
@@ -536,12 +568,12 @@ func GenScript(t *simrt.Tape, maxLen int) []Step {
 	var out []Step
 	for i := 0; i < n; i++ {
 		if t.Draw(10) < 6 {
-			out = append(out, Step{Op: "auto", Choice: t.Draw(4), Creds: t.Biased(5, 2, 3), From: t.Draw(3)})
+			out = append(out, Step{Op: "auto", Choice: t.Draw(4), Creds: t.Biased(5, 2, 3), From: t.Draw(5)})
 			continue
 		}
 		switch t.Draw(10) {
 		case 0, 1, 2, 3:
-			st := Step{Op: "session", State: stateNames[t.Draw(len(stateNames))], IDMode: t.Biased(4, 1, 2), From: t.Draw(3)}
+			st := Step{Op: "session", State: stateNames[t.Draw(len(stateNames))], IDMode: t.Biased(4, 1, 2), From: t.Draw(5)}
 			if t.Draw(2) == 0 {
 				st.State = "same" // echo the state of the server's latest session envelope
 			}
@@ -574,7 +606,8 @@ var validSecret = "correct-horse"
 
 func identityFor(variant int, scheme string) string {
 	name := []string{"alice", "bob", "carol"}[variant%3]
-	if scheme == "guest" {
+	if scheme == "guest" || variant%5 >= 3 {
+		// (variants 3 and 4: a UUID-shaped name under any scheme, as a guest would carry)
 		name = []string{"4f9c8c5e-1a2b-4c3d-8e9f-0a1b2c3d4e5f", "0e0e0e0e-aaaa-4bbb-8ccc-111111111111", "not-a-uuid"}[variant%3]
 	}
 	return name + "@cli.org/home"
